@@ -376,6 +376,19 @@ def _model_of(ops):
     return m
 
 
+# every other writer method of Builder (a writer that bypasses a copy-on-write or capacity path is found only if it is called)
+_MISC_STORES = {
+    'string': lambda b: (lambda: b.store_string('ab')),
+    'int': lambda b: (lambda: b.store_int(-3, 9)),
+    'coins': lambda b: (lambda: b.store_coins(12345)),
+    'var_uint': lambda b: (lambda: b.store_var_uint(77, 4)),
+    'var_int': lambda b: (lambda: b.store_var_int(-77, 4)),
+    'bool': lambda b: (lambda: b.store_bool(True)),
+    'address_none': lambda b: (lambda: b.store_address(None)),
+    'snake_string': lambda b: (lambda: b.store_snake_string('xyz' * 50)),
+    'dict_none': lambda b: (lambda: b.store_dict(None)),
+}
+
 # --------------------------------------------------------------------------------------------------
 # the interpreter
 
@@ -438,7 +451,14 @@ class _World:
 
     @staticmethod
     def _bstate(b):
-        return (b.bits.to01(), tuple(r.hash for r in b.refs))
+        # read the containers without going through the public properties when the private attributes exist: a property
+        # with a side effect (e.g. a copy-on-write that un-shares on first access) must not be triggered by the OBSERVER,
+        # or the harness itself would hide the aliasing it is looking for
+        bits = getattr(b, '_bits', None)
+        refs = getattr(b, '_refs', None)
+        if bits is None or refs is None:
+            bits, refs = b.bits, b.refs
+        return (bits.to01(), tuple(r.hash for r in refs))
 
     @staticmethod
     def _cheap(c):
@@ -720,7 +740,7 @@ class _World:
         call(f)
         return None, ('s', op['s']), None
 
-    def _do_store(self, op):
+    def _do_store(self, op):  # noqa: C901
         be = self.builders[op['b']]
         b = be['o']
         m = op['m']
@@ -736,6 +756,8 @@ class _World:
             f = lambda: b.store_bytes(bytes.fromhex(op['v']))
         elif m == 'snake':
             f = lambda: b.store_snake_bytes(bytes.fromhex(op['v']))
+        elif m in _MISC_STORES:                       # every other writer of the Builder API (sizes not modelled: "unknown")
+            f = _MISC_STORES[m](b)
         elif m in ('ref', 'cell', 'maybe_ref'):
             x = None if op['x'] is None else self.cells[op['x']]['o']
             f = {'ref': lambda: b.store_ref(x), 'cell': lambda: b.store_cell(x), 'maybe_ref': lambda: b.store_maybe_ref(x)}[m]
@@ -1158,7 +1180,7 @@ def _g_store(draw, m, bi=None):
     bi = _idx(draw, len(m.b)) if bi is None else bi
     b = m.b[bi]
     avail = 1023 - b['nb'] if b['nb'] is not None else 64
-    kinds = ['bits', 'bits', 'uint', 'uint', 'bit', 'bytes', 'maybe_ref', 'snake']
+    kinds = ['bits', 'bits', 'uint', 'uint', 'bit', 'bytes', 'maybe_ref', 'snake'] + sorted(_MISC_STORES)
     if m.c:
         kinds += ['ref', 'ref', 'cell', 'cell']
     if m.s:
@@ -1445,7 +1467,7 @@ _GRID_LOADS = [('bits', 5), ('uint', 9), ('int', 3), ('skip', 13), ('bytes', 2),
                ('coins', 0), ('address', 0), ('dict', 8), ('snake', 0)]
 _GRID_STORES = [{'m': 'bits', 'v': '1011'}, {'m': 'uint', 'v': 5, 'n': 7}, {'m': 'bit', 'v': 1}, {'m': 'bytes', 'v': 'a5'},
                 {'m': 'ref', 'x': 0}, {'m': 'cell', 'x': 0}, {'m': 'slice', 'x': 0}, {'m': 'maybe_ref', 'x': 1},
-                {'m': 'snake', 'v': 'ab' * 140}]
+                {'m': 'snake', 'v': 'ab' * 140}] + [{'m': k} for k in sorted(_MISC_STORES)]
 
 
 def _grid_prog(route, chain):
@@ -1507,6 +1529,53 @@ def enum_grid(tier):
             for sto in _GRID_STORES:
                 yield {'ops': ops + [dict(sto, op='store', b=bi), {'op': 'bderive', 'how': 'end_cell', 'b': bi},
                                      {'op': 'store', 'b': bi, 'm': 'ref', 'x': 1}] + tail}
+                # ... and every writer as the FIRST write after end_cell() (a copy-on-write path that one writer bypasses)
+                yield {'ops': ops + [{'op': 'bderive', 'how': 'end_cell', 'b': bi}, dict(sto, op='store', b=bi)] + tail}
+
+
+# --------------------------------------------------------------------------------------------------
+# the result of to_boc does not depend on which to_boc variant was called on the same cell before
+
+def check_boc_order(case):
+    from harness.gen import dag
+    cells = dag.build_ref(case['spec'])
+    ok, A = call(dag.lib_from_ref, cells, 'builder')
+    ok2, B = call(dag.lib_from_ref, cells, 'builder')
+    if not ok or not ok2:
+        return None
+    o1, o2 = OPTSETS[case['first']], OPTSETS[case['second']]
+    call(A[-1].to_boc, *o1)
+    for inner in A[:-1][-2:]:
+        call(inner.to_boc, *o1)
+    okA, a = call(A[-1].to_boc, *o2)
+    okB, b = call(B[-1].to_boc, *o2)                       # an equal cell that was never serialised before
+    if okA != okB:
+        return Fail('to_boc/depends-on-earlier-calls/raises', f'to_boc{o2} after to_boc{o1}: '
+                    f'{"returns" if okA else "raises " + repr(a)}; on a fresh equal cell: {"returns" if okB else "raises " + repr(b)}')
+    if okA and bytes(a) != bytes(b):
+        return Fail('to_boc/depends-on-earlier-calls/bytes', f'to_boc{o2} after to_boc{o1} differs from to_boc{o2} of a fresh equal cell '
+                    f'({len(a)} vs {len(b)} bytes)')
+    return None
+
+
+def enum_boc_order(tier):
+    # payload sizes around the points where the offset width changes (128 / 256 bytes; doubled by cache bits)
+    specs = []
+    for k, lens in ((1, range(118, 128)), (2, range(56, 68)), (4, range(58, 64)), (3, (10, 40, 84))):
+        for L in lens:
+            spec = [{'k': 'o', 'b': [8 * L, 2, L + j], 'r': []} for j in range(k)]
+            spec.append({'k': 'o', 'b': [7, 2, L], 'r': list(range(k))})
+            specs.append(spec)
+    if tier != 'quick':
+        big = [{'k': 'o', 'b': [1008, 2, 0], 'r': []}]
+        for j in range(1, 262):
+            big.append({'k': 'o', 'b': [1000 - (j % 3) * 8, 2, j], 'r': [j - 1]})
+        specs += [big[:258], big[:260], big]
+    for spec in specs:
+        for i in range(len(OPTSETS)):
+            for j in range(len(OPTSETS)):
+                if i != j:
+                    yield {'spec': spec, 'first': i, 'second': j}
 
 
 SUBCHECKS = [
@@ -1517,6 +1586,9 @@ SUBCHECKS = [
         exhaustive=True, note='construction route x derivation chain x every load / store method, then observations'),
     Sub('programs-random', check_program, strategy=strat_programs, classify=classify, nontrivial=nontrivial,
         n=(8000, 100000), shards=(16, 48)),
+    Sub('to_boc-order-independence', check_boc_order, enum=enum_boc_order, shards=(8, 16), exhaustive=True,
+        note='every ordered pair of the 6 option sets on the same cell vs a fresh equal cell; payloads around 128 / 256 bytes '
+             '(thorough: 32768) where the offset width changes'),
     Sub('history-independence', check_history, strategy=strat_history, classify=classify_history,
         nontrivial=nontrivial_history, n=(3000, 30000), shards=(16, 32)),
 ]
